@@ -56,8 +56,20 @@ def _is_min(f, e, a_d, b_d, depth=3):
     j = f.strip(e)
     n = f.nodes[j]
     if n["k"] == "DeclRefExpr" and n["dk"] == "local" and depth > 0:
-        defs = [rhs for a, rhs, op in f.var_defs(n["d"])]
-        return len(defs) == 1 and defs[0] is not None and _is_min(f, defs[0], a_d, b_d, depth - 1)
+        defs = [(a, rhs) for a, rhs, op in f.var_defs(n["d"]) if op != "addr" and not (op == "decl" and rhs is None)]
+        if len(defs) == 1:
+            return defs[0][1] is not None and _is_min(f, defs[0][1], a_d, b_d, depth - 1)
+        # the same minimum written as an if/else: one assignment of each operand, each on an edge where it is the smaller one
+        vals = {}
+        for a, rhs in defs:
+            v = rl.var_of(f, rhs) if rhs is not None else None
+            if v not in (a_d, b_d) or v in vals:
+                return False
+            o = b_d if v == a_d else a_d
+            if f.cfg.guarded(f.cfg.pt(a), lambda e, pol: isinstance(e, int) and rl.establishes(f, e, pol, "<=", rl.is_local(f, v), rl.is_local(f, o))) is not None:
+                return False
+            vals[v] = a
+        return set(vals) == {a_d, b_d}
     if n["k"] != "ConditionalOperator":
         return False
     c = rl.cmp_parts(f, n["cond"])
@@ -202,7 +214,9 @@ def r3(ctx, prog):
         v = g.strip(g.nodes[r]["val"])
         vn = g.nodes[v]
         site = g.where(r)
-        if vn["k"] == "CallExpr" and vn.get("callee") == "_mi_heap_realloc_zero":
+        if g.cv(v) == 0:
+            ctx.ok(R, site, "returns NULL (failure): nothing to align")
+        elif vn["k"] == "CallExpr" and vn.get("callee") == "_mi_heap_realloc_zero":
             fact_off = _mod_zero_fact(g, lambda x: rl.var_of(g, x) == of_d, al_d)
             fact_al0 = lambda e, pol: isinstance(e, int) and rl.fact_null(g, e, pol, rl.is_var(g, al_d))
             w = cfg.guarded(cfg.pt(r), lambda e, pol: fact_off(e, pol) or fact_al0(e, pol))
